@@ -131,6 +131,12 @@ def drain(w, L):
                     progressed = True
                 continue
             st = lc.state if lc is not None else "built"
+            if wc.in_desync or wc.raw_injected or (lc is not None and getattr(lc, "had_malformed", False)):
+                # garbage was fed into this connection: how the client framed it is not
+                # knowable from outside; faults stop = this connection is replaced
+                w.run_step({"op": "net.close", "addr": addr, "kind": "fin", "drop": True})
+                progressed = True
+                continue
             if st == "refused":
                 w.run_step({"op": "net.close", "addr": addr, "kind": "fin"})
                 progressed = True
@@ -139,8 +145,10 @@ def drain(w, L):
                 if _pending(L, addr):
                     from sim.rules_sess import _mode
                     mode = _mode(L, addr)
+                    ver = {"$": "v31"} if w.cfg.get("version") == 3 else {"$": "v311"}
                     w.run_step({"op": "app.call", "addr": addr, "m": "connect", "a": ["drain"],
-                                "k": {"cleanStart": bool(mode) if mode is not None else True, "keepalive": 0}})
+                                "k": {"cleanStart": bool(mode) if mode is not None else True, "keepalive": 0,
+                                      "version": ver}})
                     progressed = True
                 continue
             if st == "connecting":
